@@ -16,6 +16,32 @@ type outputs struct {
 	Text string
 	MD   string
 	Doc  *model.Document
+	// Parsed: the tables of the format reader (docx.Open / odt.Open) in the order it
+	// holds them; HaveParsed says the reader was consulted at all.
+	Parsed     []ptable
+	HaveParsed bool
+}
+
+// pcell is one cell of a reader's parsed table row. Flag: the reader says the cell
+// is not a cell of its own but the continuation of a merge from above (docx:
+// IsMergedContinuation, odt: IsCovered).
+type pcell struct {
+	Text   string
+	CS, RS int
+	Flag   bool
+}
+
+type ptable [][]pcell
+
+func (p ptable) contains(tok string) bool {
+	for _, row := range p {
+		for _, c := range row {
+			if strings.Contains(c.Text, tok) {
+				return true
+			}
+		}
+	}
+	return false
 }
 
 type entry struct {
@@ -76,9 +102,11 @@ func (f fails) add(key, format string, a ...interface{}) {
 
 var oracleKeys = map[string][]string{
 	"docx": {"body-order", "table-after-multipara-table", "inline-order", "hyperlink-text-lost", "ins-text-lost", "sdt-text-lost",
-		"text-lost", "heading-level", "style-chain-heading-level", "list-nesting", "grid-cell", "merged-cell", "header-leak"},
+		"text-lost", "heading-level", "style-chain-heading-level", "list-nesting", "grid-cell", "merged-cell", "header-leak",
+		"parsed-grid-shape", "parsed-grid-span", "parsed-grid-continuation"},
 	"odt": {"body-order", "span-text-order", "inline-element-lost", "link-text-lost", "nested-span-text-lost", "text-lost",
-		"heading-level", "style-chain-heading-level", "list-nesting", "grid-cell", "merged-cell", "header-leak"},
+		"heading-level", "style-chain-heading-level", "list-nesting", "grid-cell", "merged-cell", "header-leak",
+		"parsed-grid-shape", "parsed-grid-span", "parsed-grid-continuation"},
 }
 
 // headingKey: a heading written in a derived style of the document's style family
@@ -245,6 +273,25 @@ func evaluate(d *ldoc, out outputs) fails {
 			}
 		}
 	}
+	// ---- the reader's parsed tables: every grid position as authored ----
+	if out.HaveParsed {
+		for bi, bl := range d.Blocks {
+			if bl.T == nil {
+				continue
+			}
+			toks := bl.T.tokens()
+			if len(toks) == 0 {
+				continue
+			}
+			for _, pt := range out.Parsed {
+				if pt.contains(toks[0].Tok) {
+					checkParsedGrid(f, bl.T, pt, bi)
+					break
+				}
+			}
+		}
+	}
+
 	if len(entries) != wantN && len(f) == 0 {
 		f.add(bodyKey, "Document(): %d elements for %d non-empty blocks", len(entries), wantN)
 	}
@@ -378,11 +425,119 @@ func checkGrid(f fails, t *ltable, m *model.Table, bi int) {
 					f.add(key, "table block %d cell (%d,%d) text %q want %q", bi, a, b, cell.Text, lc.wantText())
 				}
 				if cell.ColSpan != lc.CS || cell.RowSpan != lc.RS {
-					f.add("merged-cell", "table block %d cell (%d,%d) spans %dx%d (rows x cols), authored %dx%d", bi, a, b, cell.RowSpan, cell.ColSpan, lc.RS, lc.CS)
+					f.add("merged-cell", "table block %d cell (%d,%d) spans %dx%d (rows x cols), authored %dx%d; authored table: %s", bi, a, b, cell.RowSpan, cell.ColSpan, lc.RS, lc.CS, t.sketch())
 				}
-			} else if cell.Text != "" {
-				f.add("merged-cell", "table block %d position (%d,%d) is covered by a merge but holds %q", bi, a, b, cell.Text)
+			} else {
+				if cell.Text != "" {
+					f.add("merged-cell", "table block %d position (%d,%d) is covered by a merge but holds %q", bi, a, b, cell.Text)
+				}
+				if cell.RowSpan > 1 || cell.ColSpan > 1 {
+					anc := t.Cover[[2]int{a, b}]
+					f.add("merged-cell", "table block %d position (%d,%d) is covered by the merge anchored at (%d,%d) but is itself given spans %dx%d (rows x cols); authored table: %s",
+						bi, a, b, anc[0], anc[1], cell.RowSpan, cell.ColSpan, t.sketch())
+				}
 			}
+		}
+	}
+}
+
+// sketch prints the authored grid row by row: [first token RxC] for an anchor
+// (spans omitted when 1x1), ^ for a position covered from above, < for one covered
+// from the left.
+func (t *ltable) sketch() string {
+	var b strings.Builder
+	fmt.Fprintf(&b, "%d rows x %d grid columns:", t.R, t.C)
+	for a := 0; a < t.R; a++ {
+		fmt.Fprintf(&b, " row%d:", a)
+		for c := 0; c < t.C; c++ {
+			pos := [2]int{a, c}
+			if cell := t.Cells[pos]; cell != nil {
+				name := ""
+				for i := range cell.Paras {
+					if tk := cell.Paras[i].tokens(); len(tk) > 0 {
+						name = tk[0].Tok
+						break
+					}
+				}
+				if cell.RS > 1 || cell.CS > 1 {
+					fmt.Fprintf(&b, "[%s %dx%d]", name, cell.RS, cell.CS)
+				} else {
+					fmt.Fprintf(&b, "[%s]", name)
+				}
+				continue
+			}
+			if anc := t.Cover[pos]; anc[0] == a {
+				b.WriteString("<")
+			} else {
+				b.WriteString("^")
+			}
+		}
+	}
+	return b.String()
+}
+
+// checkParsedGrid walks every row of the reader's parsed table along the grid: a
+// parsed cell starts at the grid column where the cells before it in the row end
+// (each takes ColSpan columns). At that position the authored grid has either
+//   - an anchor: the parsed cell must be a cell of its own (not flagged as the
+//     continuation of a merge) and carry the authored row span and column span;
+//   - a position covered from above: the parsed cell must be flagged as continuation
+//     and stay inside the merged region (the readers either keep one continuation
+//     cell as wide as the merge or one placeholder per column; both tile the region);
+//   - a position covered from the left by a cell of the same row: no parsed cell may
+//     start there.
+//
+// Every row must end exactly at the last grid column.
+func checkParsedGrid(f fails, t *ltable, pt ptable, bi int) {
+	if len(pt) != t.R {
+		f.add("parsed-grid-shape", "reader: table block %d has %d parsed rows, authored %d; authored table: %s", bi, len(pt), t.R, t.sketch())
+		return
+	}
+	for a := 0; a < t.R; a++ {
+		g := 0
+		for i, pc := range pt[a] {
+			if g >= t.C {
+				f.add("parsed-grid-shape", "reader: table block %d row %d: parsed cell #%d starts at grid column %d, past the %d authored columns; authored table: %s", bi, a, i, g, t.C, t.sketch())
+				break
+			}
+			pos := [2]int{a, g}
+			w := pc.CS
+			if w < 1 {
+				f.add("parsed-grid-span", "reader: table block %d row %d: parsed cell #%d at grid column %d has column span %d", bi, a, i, g, pc.CS)
+				w = 1
+			}
+			if lc := t.Cells[pos]; lc != nil {
+				if pc.Flag {
+					f.add("parsed-grid-continuation", "reader: table block %d row %d: parsed cell #%d at grid column %d is flagged as merge continuation, but the authored grid has a cell of its own there; authored table: %s", bi, a, i, g, t.sketch())
+				}
+				if pc.CS != lc.CS || pc.RS != lc.RS {
+					f.add("parsed-grid-span", "reader: table block %d row %d: parsed cell #%d at grid column %d spans %dx%d (rows x cols), authored %dx%d; authored table: %s", bi, a, i, g, pc.RS, pc.CS, lc.RS, lc.CS, t.sketch())
+				}
+				if pc.Text != lc.wantText() {
+					f.add("grid-cell", "reader: table block %d row %d: parsed cell #%d at grid column %d holds %q, authored %q", bi, a, i, g, pc.Text, lc.wantText())
+				}
+				g += w
+				continue
+			}
+			anc := t.Cover[pos]
+			if anc[0] == a {
+				f.add("parsed-grid-shape", "reader: table block %d row %d: parsed cell #%d starts at grid column %d, inside the column span of the cell at column %d; authored table: %s", bi, a, i, g, anc[1], t.sketch())
+				g += w
+				continue
+			}
+			if !pc.Flag {
+				f.add("parsed-grid-continuation", "reader: table block %d row %d: parsed cell #%d at grid column %d is not flagged as merge continuation, but the position is covered by the merge anchored at (%d,%d); authored table: %s", bi, a, i, g, anc[0], anc[1], t.sketch())
+			}
+			if end := anc[1] + t.Cells[anc].CS; g+w > end {
+				f.add("parsed-grid-span", "reader: table block %d row %d: continuation cell #%d at grid column %d is %d columns wide and leaves the merged region (columns %d..%d); authored table: %s", bi, a, i, g, w, anc[1], end-1, t.sketch())
+			}
+			if pc.Text != "" {
+				f.add("parsed-grid-continuation", "reader: table block %d row %d: continuation cell #%d at grid column %d holds %q", bi, a, i, g, pc.Text)
+			}
+			g += w
+		}
+		if g != t.C {
+			f.add("parsed-grid-shape", "reader: table block %d row %d ends at grid column %d, authored %d columns; authored table: %s", bi, a, g, t.C, t.sketch())
 		}
 	}
 }
